@@ -70,7 +70,8 @@ pub fn run() {
                     let n = ch.len();
                     let mut first_ok = false;
                     if n >= 1 {
-                        let s0 = ch[0].to_sender();
+                        let mut c0 = ch.remove(0); // converted here, so it must not be converted again by the caller
+                        let s0 = c0.to_sender();
                         first_ok = s0.send(&[0x5A, 0x5A, 0x5A], vec![], vec![]).is_ok();
                     }
                     log.push(json!({"survivor_atts": [n, first_ok]}));
